@@ -1014,19 +1014,27 @@ def _compare_remainder(remainder: e.Expr, ref_remainder: e.Expr,
     #    idx in the eri part and the denom have to be identical
     # -> need to be solved at another point
 
-    difference = remainder - ref_remainder
-    if len(difference) == 1:  # already identical -> 0 or added to 1 term
-        return 1 if difference.sympy is S.Zero else -1
-    # check if the eri parts of both remainders can be mapped onto each other
-    factored = factor_eri_parts(difference)
-    if len(factored) > 1:  # eri parts not compatible
-        return None
+    def vanishes(expr: e.Expr) -> bool:
+        if len(expr) == 1:  # already identical -> 0 or added to 1 term
+            return expr.sympy is S.Zero
+        # check if the eri parts of both remainders can be mapped onto
+        # each other
+        factored = factor_eri_parts(expr)
+        if len(factored) > 1:  # eri parts not compatible
+            return False
+        # check if the denominators are compatible too.
+        factored = factor_denom(factored[0])
+        if len(factored) > 1:  # denominators are not compatible
+            return False
+        return factored[0].sympy is S.Zero
 
-    # check if the denominators are compatible too.
-    factored = factor_denom(factored[0])
-    if len(factored) > 1:  # denominators are not compatible
-        return None
-    return 1 if factored[0].sympy is S.Zero else -1
+    # the remainders (including their orbital energy numerators) have to be
+    # identical up to a sign
+    if vanishes(remainder - ref_remainder):
+        return 1
+    elif vanishes(remainder + ref_remainder):
+        return -1
+    return None
 
 
 class LongItmdVariants(dict):
